@@ -53,10 +53,16 @@ fn enc_case(ctx: &mut Ctx, ke: &BigUint, id: &[u8], msg: &[u8], r: Option<&BigUi
     };
     if let Some(r) = r {
         if &used != r || seen.pending != 0 {
-            ctx.violation(&format!("encrypt:{}:injected-valid-r-not-used", cls), wit(ke, id, msg, Some(r)));
-            return;
+            // a generator may legitimately be stricter than [1, N-1] (the SM9 one refuses scalars whose lowest
+            // limb is zero): the operation then ran on a fresh draw, which is compared below like a free one
+            ctx.class("injected_r_rejected_by_generator");
+            if seen.candidates.first() != Some(r) {
+                ctx.violation(&format!("encrypt:{}:injected-candidate-never-reached-the-generator", cls), wit(ke, id, msg, Some(r)));
+                return;
+            }
+        } else {
+            ctx.class("fixed_r_exact");
         }
-        ctx.class("fixed_r_exact");
     } else {
         ctx.class("free_r");
     }
@@ -308,6 +314,7 @@ pub fn run(ctx: &mut Ctx) {
             let r = match idx % 17 {
                 0 => BigUint::from(1 + idx % 3),
                 1 => &pr.n - 2u32 - BigUint::from(idx % 2),
+                2 | 3 => sparse_scalar(&mut p, 1 + (idx / 17) % 14),
                 _ => rand_scalar(&mut p, &(&pr.n - 1u32)),
             };
             ctx.class(&format!("msg_len={}", len));
